@@ -23,6 +23,8 @@ LET_NAMES = ['m', 't', 'flag', 'lbl']
 dyn_tag = st.one_of(
     st.sampled_from(lang.FIELD_KEYS).map(lambda k: ['field', k]),
     st.just(['name', 'source']),
+    # field.<built-in> is the transaction's own value (source, location, description), not a custom column
+    st.sampled_from(['source', 'location', 'description']).map(lambda n: ['fieldb', n]),
     st.sampled_from([r'REF:(\d+)', r'PROJ:(\w+)', r'#(\d+)', r'^(\S+)']).map(lambda p: ['call', 'extract', [['str', p]]]),
     st.just(['call', 'extract', [['field', 'memo'], ['str', r'PROJ:(\w+)']]]),
     # counted quantifiers: braces INSIDE the {expression}
